@@ -641,6 +641,17 @@ impl<'a> UserModel<'a> {
         Ok(())
     }
 
+    // A diff that created a format carries it: append it to this model's dxf table
+    // (as the original operation did on the model it was recorded on) and point the
+    // rule at it.
+    fn append_diff_dxf(&mut self, rule: &mut crate::cf_types::CfRule, dxf: &Option<crate::types::Dxf>) {
+        if let (Some(dxf), Some(dxf_id)) = (dxf, rule.dxf_id_mut()) {
+            let dxfs = &mut self.model.workbook.styles.dxfs;
+            *dxf_id = dxfs.len() as u32;
+            dxfs.push(dxf.clone());
+        }
+    }
+
     /// Applies diff list
     pub(super) fn apply_diff_list(&mut self, diff_list: &DiffList) -> Result<(), String> {
         let mut needs_evaluation = false;
@@ -1008,6 +1019,7 @@ impl<'a> UserModel<'a> {
                     range,
                     rule,
                     priority,
+                    dxf,
                 } => {
                     let len = self
                         .model
@@ -1015,12 +1027,14 @@ impl<'a> UserModel<'a> {
                         .worksheet(*sheet)?
                         .conditional_formatting
                         .len();
+                    let mut cf_rule = *rule.clone();
+                    self.append_diff_dxf(&mut cf_rule, dxf);
                     self.model.insert_conditional_formatting_at(
                         *sheet,
                         len,
                         ConditionalFormatting {
                             range: range.clone(),
-                            cf_rule: *rule.clone(),
+                            cf_rule,
                             priority: *priority,
                         },
                     )?;
@@ -1036,13 +1050,16 @@ impl<'a> UserModel<'a> {
                     index,
                     new_range,
                     new_rule,
+                    new_dxf,
                     ..
                 } => {
+                    let mut cf_rule = *new_rule.clone();
+                    self.append_diff_dxf(&mut cf_rule, new_dxf);
                     let ws = self.model.workbook.worksheet_mut(*sheet)?;
                     let i = *index as usize;
                     if i < ws.conditional_formatting.len() {
                         ws.conditional_formatting[i].range = new_range.clone();
-                        ws.conditional_formatting[i].cf_rule = *new_rule.clone();
+                        ws.conditional_formatting[i].cf_rule = cf_rule;
                     }
                     needs_evaluation = true;
                 }
